@@ -8,7 +8,7 @@ AST (python tuples), mirrors coq/theories/Expand/Model.v:
   pexpr:  ("p", param, braced) | ("d"|"a", colon, param, wordtext) | ("l", param)
   param:  ("n", name) ("1", k) ("*",) ("@",) ("S", name) ("R", name) ("i", name, k) ("c",)
 """
-import json, os, subprocess, tempfile, shutil
+import json, os, signal, subprocess, tempfile, shutil, threading
 from vlib import core
 
 # ------------------------------------------------------------------ rendering
@@ -323,7 +323,7 @@ def check_parse_and_resolve(ctx, cases):
     for ci, c in enumerate(cases):
         for key, (q, text) in subword_requests(c.word).items():
             subreq.append((ci, key, q, text))
-    lines = ctx.impl("wparse", reqs + [[t, cases[ci].flags().replace("c", "")] for (ci, _k, _q, t) in subreq])
+    lines = impl(ctx, "wparse", reqs + [[t, cases[ci].flags().replace("c", "")] for (ci, _k, _q, t) in subreq])
     problems = []
     subs = [dict() for _ in cases]
     for ci, c in enumerate(cases):
@@ -459,14 +459,12 @@ class BashRunner:
             parts = [BASH_PRELUDE, 'run_case() { ( cd "$1" || exit 3; eval "$2" ) 2>/dev/null; }\n']
             for i in chunk:
                 parts.append("printf 'CASE\\0%%s\\0' %d\nrun_case %s %s\n" % (i, sq(self.dir_for(cases[i].names)), sq(scripts[i])))
-            try:
-                p = subprocess.run(["/usr/bin/bash", "--norc", "--noprofile", "-c", "".join(parts)],
-                                   stdout=subprocess.PIPE, stderr=subprocess.DEVNULL,
-                                   env={"LC_ALL": "C.UTF-8", "PATH": "/usr/bin:/bin"}, timeout=300)
-            except subprocess.TimeoutExpired:
+            stdout, timed_out = run_group(["/usr/bin/bash", "--norc", "--noprofile", "-c", "".join(parts)],
+                                          env={"LC_ALL": "C.UTF-8", "PATH": "/usr/bin:/bin"}, timeout=300)
+            if timed_out:
                 return [(i, ("TIMEOUT",)) for i in chunk]
             # NUL-framed stream: CASE k  { CAP n arg*n }*   (only builtins: no fork per argument)
-            toks = p.stdout.split(b"\0")
+            toks = stdout.split(b"\0")
             res, cur, k = {}, None, 0
             try:
                 while k < len(toks) - 1:
@@ -499,3 +497,81 @@ class BashRunner:
 
     def close(self):
         shutil.rmtree(self.base, ignore_errors=True)
+
+
+# ------------------------------------------------------------------ child processes
+
+def kill_group(pid):
+    try:
+        os.killpg(pid, signal.SIGKILL)
+    except (ProcessLookupError, PermissionError, OSError):
+        pass
+
+
+def run_group(cmd, input=None, env=None, timeout=300, cwd=None):
+    """runs cmd as the leader of its OWN process group; the whole group is killed on timeout and again after
+    completion, so that nothing the child started survives.  -> (stdout bytes, timed_out)"""
+    p = subprocess.Popen(cmd, stdin=subprocess.PIPE if input is not None else subprocess.DEVNULL,
+                         stdout=subprocess.PIPE, stderr=subprocess.DEVNULL, env=env, cwd=cwd, start_new_session=True)
+    timed_out = False
+    try:
+        out, _ = p.communicate(input, timeout=timeout)
+    except subprocess.TimeoutExpired:
+        timed_out = True
+        kill_group(p.pid)
+        out, _ = p.communicate()
+    finally:
+        kill_group(p.pid)
+    return out or b"", timed_out
+
+
+def impl(ctx, sub, cases, timeout=1200):
+    """the harness (brush in process, plus whatever it forks) sharded like core.run_sharded, every shard in its own
+    process group"""
+    lines = [core.enc_case(c) for c in cases]
+    if not lines:
+        return []
+    shards = min(core.NPROC, max(1, len(lines) // 8))
+    chunks = [lines[i::shards] for i in range(shards)]
+    os.makedirs(core.SCRATCH, exist_ok=True)
+    e = dict(os.environ)
+    e["VERIF_SCRATCH"] = core.SCRATCH
+    outs = [None] * shards
+
+    def feed(i):
+        o, to = run_group([ctx.harness, sub], input=("\n".join(chunks[i]) + "\n").encode(), env=e, timeout=timeout)
+        outs[i] = (o.decode("utf-8", "replace").split("\n"), "TIMEOUT" if to else "DIED")
+    ths = [threading.Thread(target=feed, args=(i,)) for i in range(shards)]
+    [t.start() for t in ths]
+    [t.join() for t in ths]
+    res = [None] * len(lines)
+    for i in range(shards):
+        got, why = outs[i]
+        if got and got[-1] == "":
+            got = got[:-1]
+        for j, _ in enumerate(chunks[i]):
+            res[i + j * shards] = got[j] if j < len(got) else why
+    return res
+
+
+# ------------------------------------------------------------------ attribution of deviating cases
+
+def open_ids():
+    import json
+    try:
+        fs = json.load(open(os.path.join(core.ROOT, "known_findings.json")))["findings"]
+    except (OSError, ValueError, KeyError):
+        return set()
+    return {f["id"] for f in fs if f.get("status") == "open"}
+
+
+def pick_class(ids):
+    """first OPEN class the case lies in; if it lies only in fixed (or unlisted) classes the first of those is
+    returned and the driver turns the case into a VIOLATION; None when it lies in no class"""
+    if not ids:
+        return None
+    op = open_ids()
+    for i in ids:
+        if i in op:
+            return i
+    return ids[0]
